@@ -26,6 +26,17 @@ use actix_service::{fn_factory, Service};
 use futures_core::future::LocalBoxFuture;
 use tokio::sync::oneshot;
 
+/// A place at which other actors may run: one of the hook points inside actix-server, or a point
+/// of the harness itself.
+#[derive(Debug, Clone, Copy, PartialEq, Eq)]
+pub enum Pt {
+    Hook(Point),
+    /// a service of a worker that has just died is being dropped (the worker's other resources, in
+    /// particular its end of the connection channel, are released before or after it depending on the
+    /// field order of `ServerWorker`)
+    ServiceDrop(usize),
+}
+
 pub struct Flag(AtomicBool);
 
 impl Flag {
@@ -147,7 +158,8 @@ pub enum Rec {
     ServerDone { ok: bool },
     CmdDone { idx: usize },
     ClientEof { conn: usize },
-    PointSeen(Point),
+    PointSeen(Pt),
+    WorkerDying { slot: usize },
     Machinery(String),
 }
 
@@ -212,7 +224,10 @@ pub struct World {
     pub torn_down: RefCell<BTreeSet<usize>>,
     pub cmds: RefCell<Vec<CmdFut>>,
     // preemption
-    points: RefCell<Vec<Point>>,
+    points: RefCell<Vec<Pt>>,
+    /// slots whose worker died of an injected panic
+    dying: RefCell<BTreeSet<usize>>,
+    tearing_down: Cell<bool>,
     plan: RefCell<Option<(usize, Vec<Ev>)>>,
     // shadow of pending epoll edges (validated against the real poll result on every turn)
     /// pending edges in the order in which they became pending (= order of the epoll ready list)
@@ -259,6 +274,16 @@ impl ScriptedSvc {
     }
 }
 
+impl Drop for ScriptedSvc {
+    fn drop(&mut self) {
+        if let Some(w) = WORLD.with(|w| w.borrow().clone()) {
+            if !w.tearing_down.get() && w.dying.borrow().contains(&self.slot) {
+                w.at_point(Pt::ServiceDrop(self.slot));
+            }
+        }
+    }
+}
+
 impl<Io: AsRawFd + 'static> Service<Io> for ScriptedSvc {
     type Response = ();
     type Error = ();
@@ -283,6 +308,8 @@ impl<Io: AsRawFd + 'static> Service<Io> for ScriptedSvc {
                 if w.cfg.log_ready {
                     w.rec(Rec::ReadyPoll { slot: self.slot, svc: self.svc, instance: self.instance, res: "panic" });
                 }
+                w.dying.borrow_mut().insert(self.slot);
+                w.rec(Rec::WorkerDying { slot: self.slot });
                 panic!("injected service panic (worker {} dies)", self.slot);
             }
         };
@@ -340,33 +367,7 @@ impl Observer for Obs {
             w.stop_seen.set(true);
             w.rec(Rec::StopProcessed);
         }
-        if w.in_nested.get() {
-            // nesting depth 1: no further preemption, but the wake-up that follows still counts
-            if point == Point::AfterPush {
-                w.add_edge(usize::MAX);
-            }
-            return;
-        }
-        let ordinal = {
-            let mut p = w.points.borrow_mut();
-            p.push(point);
-            p.len() - 1
-        };
-        let plan = {
-            let mut plan = w.plan.borrow_mut();
-            match &*plan {
-                Some((at, _)) if *at == ordinal => plan.take(),
-                _ => None,
-            }
-        };
-        if let Some((_, evs)) = plan {
-            w.in_nested.set(true);
-            for ev in evs {
-                w.rec(Rec::PointSeen(point));
-                w.apply_nested(ev);
-            }
-            w.in_nested.set(false);
-        }
+        w.at_point(Pt::Hook(point));
         if point == Point::AfterPush {
             // `mio::Waker::wake` follows immediately: the waker token's edge becomes pending
             w.add_edge(usize::MAX);
@@ -521,6 +522,34 @@ impl World {
         id
     }
 
+    /// Common handling of a preemption point: number it and run the planned nested events, if this
+    /// is the planned point.
+    fn at_point(&self, pt: Pt) {
+        if self.in_nested.get() {
+            return; // nesting depth 1
+        }
+        let ordinal = {
+            let mut p = self.points.borrow_mut();
+            p.push(pt);
+            p.len() - 1
+        };
+        let plan = {
+            let mut plan = self.plan.borrow_mut();
+            match &*plan {
+                Some((at, _)) if *at == ordinal => plan.take(),
+                _ => None,
+            }
+        };
+        if let Some((_, evs)) = plan {
+            self.in_nested.set(true);
+            for ev in evs {
+                self.rec(Rec::PointSeen(pt));
+                self.apply_nested(ev);
+            }
+            self.in_nested.set(false);
+        }
+    }
+
     fn add_edge(&self, token: usize) {
         let mut e = self.edges.borrow_mut();
         if !e.contains(&token) {
@@ -603,7 +632,7 @@ impl World {
         out
     }
 
-    pub fn take_points(&self) -> Vec<Point> {
+    pub fn take_points(&self) -> Vec<Pt> {
         std::mem::take(&mut *self.points.borrow_mut())
     }
 
@@ -924,6 +953,8 @@ impl Sys {
             torn_down: RefCell::new(BTreeSet::new()),
             cmds: RefCell::new(vec![]),
             points: RefCell::new(vec![]),
+            dying: RefCell::new(BTreeSet::new()),
+            tearing_down: Cell::new(false),
             plan: RefCell::new(None),
             edges: RefCell::new(Vec::new()),
             accept_dead: Cell::new(false),
@@ -1122,6 +1153,7 @@ impl Drop for Sys {
         {
             let _g = rt.enter();
             let w = self.w.clone();
+            w.tearing_down.set(true);
             let _ = mcutil::quiet_catch(|| {
                 w.cmds.borrow_mut().clear();
                 w.inflight.borrow_mut().clear();
